@@ -46,6 +46,8 @@ def value_pool() -> Dict[str, Any]:
         "v18": "",
         "v19": np.zeros((0, 3)),
         "v20": np.int8(-3),
+        # three-element arrays for element writes (H5Tree!ArrTok)
+        **{f"w{a}{b}{c}": np.array([a, b, c], dtype="int64") for a in (0, 1) for b in (0, 1) for c in (0, 1)},
     }
 
 
@@ -268,6 +270,10 @@ def apply_op(root, e: Dict[str, Any], km: KeyMap, pool: Dict[str, Any]):
         base.require_dataset(p, shape=(), dtype="int64", data=pool[e["v"]])
     elif op == "move":
         root.move(p, km.path(e["q"]))
+    elif op == "set_elem":
+        base[p][e["k"]] = e["b"]
+    elif op == "copy_into_patch":
+        base[p].copy_into_patch()
     else:
         raise ValueError(f"unknown op {op}")
 
@@ -276,7 +282,7 @@ def apply_op(root, e: Dict[str, Any], km: KeyMap, pool: Dict[str, Any]):
 # state-aware random operation generator
 
 USER_OPS = ["create_group", "set_dataset", "delete", "set_attr", "del_attr", "copy", "move", "require_group",
-            "copyx", "require_dataset"]
+            "copyx", "require_dataset", "set_elem", "copy_into_patch"]
 
 
 def gen_op(rng: random.Random, view: List[Dict[str, Any]], *, depth: int = 3,
@@ -294,7 +300,7 @@ def gen_op(rng: random.Random, view: List[Dict[str, Any]], *, depth: int = 3,
     attr_values = attr_values or [v for v in values if v != "v8"] or ["v1"]
     attr_keys = attr_keys or ABSTRACT_ATTRS
     w = {"create_group": 3, "set_dataset": 4, "delete": 3, "set_attr": 3, "del_attr": 1.5,
-         "copy": 2, "move": 1.5, "require_group": 0.7, "copyx": 0, "require_dataset": 0}
+         "copy": 2, "move": 1.5, "require_group": 0.7, "copyx": 0, "require_dataset": 0, "set_elem": 0, "copy_into_patch": 0}
     if weights:
         w.update(weights)
     ops = list(w)
@@ -357,6 +363,16 @@ def gen_op(rng: random.Random, view: List[Dict[str, Any]], *, depth: int = 3,
         else:
             e["p"] = list(rng.choice(list(nodes)))
             e["key"] = rng.choice(attr_keys)
+    elif op in ("set_elem", "copy_into_patch"):
+        arrs = [p for p in datasets if nodes[p]["v"].startswith("w")]
+        if op == "set_elem" and arrs and r < 0.8:
+            e["p"] = list(rng.choice(arrs))
+        elif datasets and r < 0.93:
+            e["p"] = list(rng.choice(datasets))
+        else:
+            e["p"] = existing_or(0.7)
+        if op == "set_elem":
+            e["k"], e["b"] = rng.choice([0, 1, 2]), rng.choice([0, 1])
     elif op == "require_dataset":
         r2 = rng.random()
         ints = [p for p in datasets if nodes[p]["v"] == "v1"]
